@@ -15,6 +15,7 @@ fn main() {
         _ => Tier::Quick,
     };
     let mut replay: Option<String> = None;
+    let mut judge: Option<String> = None;
     let mut strict = false;
     let mut i = 2;
     while i < args.len() {
@@ -27,6 +28,10 @@ fn main() {
                 i += 1;
                 replay = Some(args[i].clone());
             }
+            "--judge-hang" => {
+                i += 1;
+                judge = Some(args[i].clone());
+            }
             "--strict" => strict = true,
             other => {
                 eprintln!("unknown argument {other}");
@@ -36,9 +41,19 @@ fn main() {
         i += 1;
     }
     let seed: u64 = std::env::var("VERIF_SEED").ok().and_then(|s| s.parse::<i64>().ok()).map(|v| v as u64).unwrap_or(0);
+    if let Some(path) = judge {
+        std::process::exit(engine::judge_hang(&id, tier.name(), seed, &path, false));
+    }
     engine::install_panic_hook();
     let mut ctx = Ctx::new(&id, tier, seed);
     ctx.strict = strict;
+    if let Some(path) = &replay {
+        // an input saved by the hang / runaway-memory detector is replayed under the same CPU-time and memory limits
+        let isolated = std::fs::read_to_string(path).map(|t| t.contains("\"sub\": \"isolated-input\"")).unwrap_or(false);
+        if isolated && std::env::var("VERIF_ISOLATED").is_err() {
+            std::process::exit(engine::judge_hang(&id, tier.name(), seed, path, true));
+        }
+    }
     if let Some(path) = replay {
         let code = vh::props::replay(&ctx, &path);
         std::process::exit(code);
@@ -47,7 +62,7 @@ fn main() {
         Tier::Quick => (1500, 240),
         Tier::Thorough => (6 * 3600, 900),
     };
-    engine::start_watchdog(&id, total, stall);
+    engine::start_watchdog_tier(&id, tier.name(), total, stall);
     if !vh::props::run(&ctx) {
         eprintln!("unknown property {id}");
         std::process::exit(2);
